@@ -643,6 +643,13 @@ def parse_prev(ans):
     return "ok", frames
 
 
+def _same_stored(got, stored):
+    """stored orders are finite rationals; what comes back must be exactly those numbers (NaN/inf: different)"""
+    if len(got) != len(stored) or not all(math.isfinite(float(x)) for x in got):
+        return False
+    return [Fr(x) for x in got] == [Fr(x) for x in stored]
+
+
 def check_prev(opm, System, case):
     """predicates on the real Path.reverse alone -> None | (sig, what)"""
     tag, frames, untouched, o = prev_real(opm, System, case)
@@ -664,7 +671,7 @@ def check_prev(opm, System, case):
             return ("C20:path-reverse:frames", f"frame {i}: vel_rev {f['velrev']} -> {g['velrev']} with rev_v={case['rev_v']}")
         # position-type functions (and no function at all): every stored value is kept.  (A velocity-type function with
         # rev_v=False is left to the model comparison: recomputing there would not contradict the property.)
-        if not vd and [Fr(x) for x in g["order"]] != [Fr(x) for x in f["order"]]:
+        if not vd and not _same_stored(g["order"], f["order"]):
             return ("C20:path-order", f"frame {i}: stored order {f['order']} became {g['order']} under Path.reverse with the "
                                       f"position-type order function {case['op']} (rev_v={case['rev_v']})")
     return None
@@ -708,7 +715,7 @@ def run_prev(ctx, opm, System):
                 same = (g_["velrev"] == m_["velrev"] and _flat(g_["pos"]) == m_["pos"] and _flat(g_["vel"]) == m_["vel"] and g_["box"] == m_["box"])
                 kind, mv = m_["order"]
                 if kind == "S":
-                    same = same and [Fr(x) for x in g_["order"]] == mv
+                    same = same and _same_stored(g_["order"], mv)
                 elif kind == "NaN":
                     same = same and len(g_["order"]) > 0 and all(math.isnan(x) for x in g_["order"])
                 else:
